@@ -4,6 +4,7 @@ import (
 	"bytes"
 	"encoding/json"
 	"fmt"
+	"path/filepath"
 	"sort"
 	"strings"
 	"time"
@@ -36,6 +37,9 @@ type C03Params struct {
 	Sweep bool `json:"sweep"`
 	// Plain: also run the uninstrumented twin (fidelity of the seams, never deciding; only together with Sweep)
 	Plain bool `json:"plain"`
+	// Race: also run every command once under the race detector (goroutines are outside the seams; two of them touching
+	// one variable without synchronisation is a source of nondeterminism that no schedule of the simulator would show)
+	Race bool `json:"race,omitempty"`
 }
 
 func (w *World) WithPrefix(prefix string) *World {
@@ -186,7 +190,13 @@ func drawCRSWorld(t *rapid.T, label string, nTargets int, opts ProgOpts, rulesOp
 		}
 	}
 	if chance(t, 50, label+"-cfg") {
-		w.Put("crs/regex-assembly/toolchain.yaml", crsLikeConfig)
+		cfg := crsLikeConfig
+		if chance(t, 25, label+"-cfgcase") {
+			// keys in another spelling of upper / lower case next to the known ones: whatever they mean, they mean it in every run
+			cfg = strings.Replace(cfg, "    unix: |\n", "    Unix: other-u\n    UNIX: third-u\n    unix: |\n", -1)
+			cfg = strings.Replace(cfg, "    windows: |\n", "    Windows: other-w\n    windows: |\n", -1)
+		}
+		w.Put("crs/regex-assembly/toolchain.yaml", cfg)
 	}
 	return cw
 }
@@ -296,6 +306,7 @@ func genC03(t *rapid.T, tier string) (*World, any) {
 	}
 	params.Sweep = chance(t, 25, "sweep")
 	params.Plain = params.Sweep
+	params.Race = chance(t, 12, "race")
 	return cw.W, params
 }
 
@@ -389,7 +400,36 @@ func evalC03(sc *Scenario, sim *Sim) ([]Violation, bool, string) {
 					Detail: detail})
 			}
 		}
+		if p.Race && agree && !isFile(filepath.Join(sim.BuildDir, "crs-race")) {
+			sim.Stats.probe("race-detector-build-unavailable")
+		} else if p.Race && agree {
+			tries := 1
+			if sc.Violation != nil && sc.Violation.Oracle == "race-detector" {
+				tries = 5
+			}
+			for k := 0; k < tries; k++ {
+				sb.Restore(sc.World)
+				st := Step{Argv: c.Argv, Cwd: "crs", Race: true}
+				if c.StdinFile != "" {
+					d := sc.World.Files[c.StdinFile]
+					st.Stdin = &d
+				}
+				rr := sb.Run(st)
+				sim.Stats.probe("race-detector-run")
+				if bytes.Contains(rr.Stderr, []byte("WARNING: DATA RACE")) || bytes.Contains(rr.Stderr, []byte("fatal error: concurrent map")) {
+					agree = false
+					viol = append(viol, Violation{Prop: "C03", Oracle: "race-detector",
+						Sig:    fmt.Sprintf("C03/%s/data-race/uncontrolled-nondeterminism", c.Name),
+						Msg:    fmt.Sprintf("`%s` runs goroutines that touch the same memory without synchronisation (race detector): its result depends on thread scheduling, a source of nondeterminism outside the seams", strings.Join(c.Argv, " ")),
+						Detail: clip2(rr.Stderr, 3000)})
+					break
+				}
+			}
+		}
 		for i, a := range p.Alts {
+			if !agree {
+				break
+			}
 			var out runOutcome
 			if a.Reloc != "" {
 				rw := sc.World.WithPrefix(a.Reloc)
@@ -542,7 +582,7 @@ func init() {
 	register(&Property{
 		ID:          "C03",
 		Level:       "exploration",
-		Rule:        "scenario = generated CRS tree (assembly programs biased to map-driven constructs: ambiguous directive lines, 1-3 suffix pairs incl. cascades and overlapping keys, nested / cyclic / computed definitions, flag sets, include-except) x 1-2 commands out of {generate, generate -, update, update --all, compare, compare --all, compare -o github, format, format --all, format --check} x 3 (quick) / 8 (thorough) seeded schedules (per-site default decision + <=4 per-event overrides; identity, reverse, rotations, seeded shuffles), each also with another simulated instant, unrelated environment variables and (30%) the tree relocated under another parent directory; oracle: exit status, stdout and the final tree equal those of the identity schedule. Non-trivial = at least one map-range event with >=2 elements received a non-identity order; distinct = distinct (world, commands, schedules).",
+		Rule:        "scenario = generated CRS tree (assembly programs biased to map-driven constructs: ambiguous directive lines, 1-3 suffix pairs incl. cascades and overlapping keys, nested / cyclic / computed definitions, flag sets, include-except; a chained rule may have data files for several of its links) x 1-2 commands out of {generate, generate -, update, update --all, compare, compare --all, compare -o github, format, format --all, format --check} x 3 (quick) / 8 (thorough) seeded schedules (per-site default decision + <=4 per-event overrides; identity, reverse, rotations, seeded shuffles), each also with another simulated instant, unrelated environment variables and (30%) the tree relocated under another parent directory; oracle: exit status, stdout and the final tree equal those of the identity schedule; two runs under the identity schedule equal each other; (12%) a run of the same instrumented sources built with the race detector reports no data race. Non-trivial = at least one map-range event with >=2 elements received a non-identity order; distinct = distinct (world, commands, schedules).",
 		Gen:         genC03,
 		Eval:        evalC03,
 		QuickChecks: 320, ThoroughChecks: 6000, Timeout: 20 * time.Second,
